@@ -217,6 +217,15 @@ pair0_pipe_recv_cb(void *arg)
 
 	nni_mtx_lock(&s->mtx);
 
+	if (s->p != p) {
+		// The pipe was already detached from the socket (it is being
+		// removed); a message left on it could never be picked up.
+		nni_mtx_unlock(&s->mtx);
+		nni_aio_set_msg(&p->aio_recv, NULL);
+		nni_msg_free(msg);
+		return;
+	}
+
 	// if anyone is blocking, then the lmq will be empty, and
 	// we should deliver it there.
 	if ((a = nni_list_first(&s->raq)) != NULL) {
